@@ -21,7 +21,7 @@ from checks.nodecommon import Result, record, generic_replay
 PID = "C13"
 RULE = ("(a) histories of 1..18 events {accept from peer p (also while p is connected), CER known/unknown/"
         "no-common-app on the newest unidentified connection, complete a pending dial ok/fail, CEA "
-        "2001/3010, request, DPR, peer close, reset, node-initiated close, advance 1 s / to a timer "
+        "2001/3010, request, DPR, peer close, reset, hard write error, node-initiated close, advance 1 s / to a timer "
         "boundary} on 1..3 peers (persistent or not) and 1..2 applications, timers 2..4 s so that events "
         "fall before, at and after expiries; (b) the generated histories of the C06/C07/C09/C10/C11/C12/"
         "C17 machines. The invariant runs after every step. Non-trivial: >= 1 connection removed while "
@@ -180,6 +180,11 @@ def run_dedicated(case):
                     w.peer_close(c)
                 elif kind == "RESET":
                     w.peer_reset(c)
+                elif kind == "WRITE_FAIL":
+                    # the next send() on this socket fails hard (EPIPE); a DWR makes the node write a DWA
+                    c.remote.fail_writes(32)
+                    w.feed_msg(c, {"k": "DWR", "host": host, "hbh": hbh, "e2e": hbh})
+                    c.peer_closed = True
                 elif kind == "NODE_CLOSE":
                     nc = w.node_conn_for(c)
                     if nc is not None:
@@ -222,6 +227,7 @@ def dedicated_cases():
                    st.tuples(st.just("REQ"), st.integers(0, 3)), st.tuples(st.just("DWA"), st.integers(0, 3)),
                    st.tuples(st.just("DPR"), st.integers(0, 3)), st.tuples(st.just("CLOSE"), st.integers(0, 3)),
                    st.tuples(st.just("RESET"), st.integers(0, 3)), st.tuples(st.just("NODE_CLOSE"), st.integers(0, 3)),
+                   st.tuples(st.just("WRITE_FAIL"), st.integers(0, 3)),
                    st.tuples(st.just("ADV"), st.sampled_from([1, 1, 1, 2, 3, 4])))
 
     @st.composite
@@ -340,7 +346,7 @@ def run(tier, scale=1.0):
     for d in hyp.pool_run(shard_main, (tier, scale)):
         rec.merge(d)
     required = {"machine:dedicated": 1, "machine:c10": 1, "machine:c06": 1, "machine:c12": 1, "machine:c09": 1, "ev:NODE_CLOSE": 1,
-                "ev:ACCEPT": 1, "ev:DIAL": 1, "ev:RESET": 1}
+                "ev:ACCEPT": 1, "ev:DIAL": 1, "ev:RESET": 1, "ev:WRITE_FAIL": 1}
     return finish(rec, tier=tier, level="exploration", rule=RULE, assumptions=ASSUME, t0=t0,
                   required_classes=required)
 
